@@ -766,6 +766,8 @@ class DurationType(_CassandraType):
             m, d, n = duration.months, duration.days, duration.nanoseconds
         except AttributeError:
             raise TypeError('DurationType arguments must be a Duration.')
+        if not (-2 ** 31 <= m < 2 ** 31 and -2 ** 31 <= d < 2 ** 31 and -2 ** 63 <= n < 2 ** 63):
+            raise ValueError('Duration out of range: months and days are 32-bit, nanoseconds 64-bit signed integers (%r)' % (duration,))
         return vints_pack([m, d, n])
 
 
